@@ -2,11 +2,11 @@
    Property theorems only; every proof is [exact <lemma>] (or a two-line
    instantiation of one).
 
-   Model: Format.v (format.go + multiline.go).  [format no_fixes] / [nl_after false]
-   / [skel_step false] are the code as it is, the [true] variants carry the two
-   repairs proposed in proposed_fixes/ (nlAfter marks the LAST statement of a
-   run; the closing bracket of a multi-line literal is indented also after a
-   trailing comment item).
+   Model: Format.v (format.go + multiline.go).  [current_fixes] = [all_fixes] is the
+   code as it is now (/repo 6dbe4ed: nlAfter marks the statement directly before
+   the comment run; c2656fe: the closing bracket of a multi-line literal is indented
+   also after a trailing comment item); [no_fixes] / [nl_after false] / [skel_step false]
+   are the code before those commits, kept for the regression lemmas.
 
    Proved for ALL formatter trees + side tables satisfying wf_prog:
      - shape: every line is 4k spaces followed by text without white space at
@@ -19,10 +19,10 @@
    Proved for ALL statement-kind skeletons (blank / comment / statement / func):
      - a statement that nlAfter marks is always followed by a non-blank one
        (so the inserted blank line never doubles an existing one), both variants;
-     - with the repaired nlAfter one formatting pass is idempotent on the
-       skeleton and leaves nothing marked;
-     - the unchanged nlAfter is NOT idempotent (refuted, witness replayed on
-       the implementation by harness/c07.go: format-not-idempotent-comment-before-func).
+     - one formatting pass of the model in force is idempotent on the skeleton and
+       leaves nothing marked;
+     - nlAfter as it was before 6dbe4ed is NOT idempotent (regression lemma; the witness
+       is still replayed on the implementation by harness/c07.go, which now must pass).
    `evy fmt -c`: the model of main.go's check accepts t iff t = format (parse t);
    it accepts the formatter's own output iff formatting that output again
    changes nothing.
@@ -84,22 +84,24 @@ Theorem C07_marked_statement_is_followed_by_nonblank : forall (fixed : bool) (ks
 Proof. exact nl_after_next_nonblank. Qed.
 Print Assumptions C07_marked_statement_is_followed_by_nonblank.
 
-(* idempotence of the blank-line logic (nlAfter after blank-run squeezing), repaired variant *)
-Theorem C07_blank_line_logic_idempotent_fixed : forall ks : list skind,
-  skel_step true (skel_step true ks) = skel_step true ks.
+(* idempotence of the blank-line logic (nlAfter after blank-run squeezing) of the model in
+   force ([current_fixes]: nlAfter as repaired by /repo 6dbe4ed), for every skeleton *)
+Theorem C07_blank_line_logic_idempotent : forall ks : list skind,
+  skel_step (fix_nl current_fixes) (skel_step (fix_nl current_fixes) ks) = skel_step (fix_nl current_fixes) ks.
 Proof. exact skel_step_fixed_idempotent. Qed.
-Print Assumptions C07_blank_line_logic_idempotent_fixed.
+Print Assumptions C07_blank_line_logic_idempotent.
 
-Theorem C07_blank_line_logic_stable_fixed : forall ks : list skind,
-  nl_after true (skel_step true ks) = [].
+Theorem C07_blank_line_logic_stable : forall ks : list skind,
+  nl_after (fix_nl current_fixes) (skel_step (fix_nl current_fixes) ks) = [].
 Proof. exact skel_step_fixed_stable. Qed.
-Print Assumptions C07_blank_line_logic_stable_fixed.
+Print Assumptions C07_blank_line_logic_stable.
 
-(* ... and of the code as it is: refuted.  a := 1 / b := 2 / // c / func f *)
-Theorem C07_format_idempotent_refuted : exists ks : list skind,
+(* regression lemma about nlAfter as it was before 6dbe4ed (it marked the FIRST statement of
+   the run): not idempotent.  a := 1 / b := 2 / // c / func f *)
+Theorem C07_format_idempotent_before_fix_refuted : exists ks : list skind,
   skel_step false (skel_step false ks) <> skel_step false ks.
 Proof. exists [KStmt; KStmt; KComment; KFunc]. vm_compute. discriminate. Qed.
-Print Assumptions C07_format_idempotent_refuted.
+Print Assumptions C07_format_idempotent_before_fix_refuted.
 
 (* `evy fmt -c` *)
 Theorem C07_check_accepts_iff_formatted : forall (parse : str -> option fprog) (fixed : fixes) (t : str),
